@@ -102,7 +102,17 @@ func evaluate(c Case) (v verdict, err error) {
 	} else {
 		model.NameValidationScheme = model.UTF8Validation
 	}
-	_, errs := rulefmt.Parse(b, false)
+	// the YAML decoder behind rulefmt.Parse can panic on a document it cannot merge (a merged mapping with
+	// an unhashable key): a Prometheus that crashes while loading a file has certainly not loaded it
+	var errs []error
+	func() {
+		defer func() {
+			if r := recover(); r != nil {
+				errs = []error{fmt.Errorf("rulefmt.Parse panics: %v", r)}
+			}
+		}()
+		_, errs = rulefmt.Parse(b, false)
+	}()
 	v.promOK = len(errs) == 0
 	if !v.promOK {
 		v.promErr = errs[0].Error()
